@@ -113,6 +113,24 @@ CLAIMED["C03"] = dict(
     technique="Lean 4 theorems over hand-written models (header cache, open gate, read wrappers) + sampled correspondence + sanitizer-monitored structure-aware fuzzing",
     design_ref="DESIGN.md §7 C03")
 
+CLAIMED["C08"] = dict(
+    text="Proof (Lean 4) over the handle model: mode-qualified whence values move only that pointer, plain ones both, zero-offset qualified SEEK_CUR are pure queries, "
+         "writes extend or keep the length (C05 write_contract), SFC_FILE_TRUNCATE shortens and moves both pointers; tied to the code by (A) byte-exact correspondence of "
+         "seeded rw histories (all 12 whence cases, truncate on descriptor routes, header updates, close/re-open, from empty and pre-populated files) on every RAW/AU/WAV "
+         "encoding, and (B) for every sample-granular container that opens SFM_RDWR, histories checked op by op against the abstract file of the statement "
+         "(frame list + read position + write position) with a lossless caller type. Partial: the refinement theorem tying the byte model to the abstract file is stated "
+         "through C01/C05 lemmas, not as one theorem.",
+    technique="Lean 4 theorems over a hand-written handle model + differential correspondence + abstract-file simulation on implementation transcripts",
+    design_ref="DESIGN.md §7 C08")
+CLAIMED["C09"] = dict(
+    text="Proof (Lean 4): invalid_read/write/seek_no_effect (every invalid-argument class returns its failure value, sets a non-zero error and leaves handle and store unchanged "
+         "up to the error field; lifted to any sequence), success_clears_error (with the proved n = 0 exception), error_text_nonempty (kernel `decide` over the message table "
+         "extracted from the running library each run). Tied to the code by (A) L1 histories with invalid calls mixed in, byte-exact against the model; (B) twin runs on every "
+         "writable format: a valid history with and without invalid calls of every class inserted must agree line by line and in the final file bytes; every inserted call "
+         "must fail cleanly with a non-empty message; all error numbers 0..SFE_MAX_ERROR exhaustively.",
+    technique="Lean 4 theorems over a hand-written handle model + table extraction by execution + twin-run differential on the implementation",
+    design_ref="DESIGN.md §7 C09")
+
 PENDING_REASON = "check under construction in this round (DESIGN.md §7 gives the plan); not claimed until its check passes on the clean tree"
 
 
